@@ -105,6 +105,7 @@ func TestWorker(t *testing.T) {
 				vs := en(t, job.Tier)
 				spec.Variant = vs[idx%len(vs)]
 			}
+			spec.Stalls = (spec.Seed>>11)%3 == 0
 			res := Execute(t, spec)
 			_ = enc.Encode(map[string]any{"kind": "hash", "idx": idx, "hash": res.Hash, "steps": res.Steps, "outcome": res.Outcome, "err": res.HarnessErr})
 		}
@@ -178,6 +179,8 @@ func workerSearch(t *testing.T, job *Job, enc *json.Encoder) {
 		} else {
 			spec.Seed = seedFor(job.SeedBase, job.Prop, idx)
 		}
+		// swarm: a third of the runs also deschedule goroutines at random points
+		spec.Stalls = (spec.Seed>>11)%3 == 0
 		res := Execute(t, spec)
 		sum.Runs++
 		sum.Outcomes[res.Outcome]++
